@@ -254,13 +254,84 @@ fn same_failure(a: &Fail, b: &Fail) -> bool {
     a.clause == b.clause && a.known == b.known
 }
 
+/// Evaluate one case: in-process, or (isolated properties) in a child process so that an abort
+/// or hang of the system under test is an outcome, not the end of the checker.
+pub fn evaluate(prop: &dyn Property, c: &Case) -> CheckResult {
+    if !prop.isolated() {
+        let mut st = Stats::default();
+        return prop.check(c, &mut st);
+    }
+    use std::process::{Command, Stdio};
+    static N: AtomicU64 = AtomicU64::new(0);
+    let dir = verif_root().join("target").join("tmp");
+    let _ = std::fs::create_dir_all(&dir);
+    let path = dir.join(format!("case-{}-{}.json", std::process::id(), N.fetch_add(1, Ordering::Relaxed)));
+    std::fs::write(&path, serde_json::to_string(c).unwrap_or_default()).map_err(|e| HarnessError(e.to_string()))?;
+    let exe = std::env::var_os("VERIF_CHILD_EXE").map(PathBuf::from).filter(|p| p.exists()).unwrap_or_else(|| std::env::current_exe().expect("current_exe"));
+    let mut child = Command::new(exe)
+        .args(["check-case", prop.id(), &path.to_string_lossy()])
+        .stdout(Stdio::piped())
+        .stderr(Stdio::piped())
+        .spawn()
+        .map_err(|e| HarnessError(e.to_string()))?;
+    let limit = prop.hang_limit_s(c);
+    let t0 = Instant::now();
+    let status = loop {
+        match child.try_wait() {
+            Ok(Some(st)) => break Some(st),
+            Ok(None) => {}
+            Err(_) => break None,
+        }
+        if t0.elapsed().as_secs() >= limit {
+            let _ = child.kill();
+            let _ = child.wait();
+            let _ = std::fs::remove_file(&path);
+            return Ok(Err(Fail::new(&format!("{}.no_hang", prop.id()), "hang".into())));
+        }
+        std::thread::sleep(std::time::Duration::from_millis(5));
+    };
+    let out = child.wait_with_output().map_err(|e| HarnessError(e.to_string()))?;
+    let _ = std::fs::remove_file(&path);
+    let stdout = String::from_utf8_lossy(&out.stdout).into_owned();
+    match status.and_then(|s| s.code()) {
+        Some(0) => Ok(Ok(())),
+        Some(1) => {
+            let line = stdout.lines().find_map(|l| l.strip_prefix("FAIL ")).unwrap_or("{}");
+            let v: Value = serde_json::from_str(line).unwrap_or(Value::Null);
+            Ok(Err(Fail { clause: v["clause"].as_str().unwrap_or("").into(), detail: v["detail"].as_str().unwrap_or("").into(), known: v["known"].as_str().map(String::from) }))
+        }
+        Some(2) => Err(HarnessError(format!("child harness error: {}", truncate(&stdout, 300)))),
+        other => Ok(Err(Fail::new(
+            &format!("{}.no_abort", prop.id()),
+            format!("child terminated abnormally ({other:?} / {status:?}); stderr: {}", truncate(&String::from_utf8_lossy(&out.stderr), 400)),
+        ))),
+    }
+}
+
+/// Child side of `evaluate`.
+pub fn check_case_child(prop: &dyn Property, path: &Path) -> i32 {
+    let Ok(s) = std::fs::read_to_string(path) else { return 2 };
+    let Ok(case) = serde_json::from_str::<Case>(&s) else { return 2 };
+    let mut st = Stats::default();
+    match prop.check(&case, &mut st) {
+        Ok(Ok(())) => 0,
+        Ok(Err(f)) => {
+            println!("FAIL {}", json!({"clause": f.clause, "detail": f.detail, "known": f.known}));
+            1
+        }
+        Err(HarnessError(e)) => {
+            println!("HARNESS {e}");
+            2
+        }
+    }
+}
+
 fn try_case(prop: &dyn Property, c: &Case, orig: &Fail, budget: &mut usize) -> Option<Fail> {
     if *budget == 0 {
         return None;
     }
     *budget -= 1;
-    let mut st = Stats::default();
-    match prop.check(c, &mut st) {
+    match evaluate(prop, c) {
         Ok(Err(f)) if same_failure(&f, orig) => Some(f),
         _ => None,
     }
@@ -331,7 +402,8 @@ fn handler_variants(h: &HandlerSpec) -> Vec<HandlerSpec> {
 }
 
 pub fn shrink(prop: &dyn Property, case: &Case, fail: &Fail) -> (Case, Fail, usize) {
-    let mut budget = 2000usize;
+    let total_budget = if prop.isolated() { 300usize } else { 2000usize };
+    let mut budget = total_budget;
     let mut cur = case.clone();
     let mut cur_fail = fail.clone();
     let mut progress = true;
@@ -487,7 +559,7 @@ pub fn shrink(prop: &dyn Property, case: &Case, fail: &Fail) -> (Case, Fail, usi
             }
         }
     }
-    (cur, cur_fail, 2000 - budget)
+    (cur, cur_fail, total_budget - budget)
 }
 
 // ---------------------------------------------------------------------------------------------
@@ -659,7 +731,7 @@ pub fn run_check(prop: &dyn Property, tier: Tier) -> i32 {
             match load_replay(&p) {
                 Ok(rf) => {
                     regress_count += 1;
-                    match prop.check(&rf.case, &mut stats) {
+                    match evaluate(prop, &rf.case) {
                         Ok(Ok(())) => {}
                         Ok(Err(f)) => violations.push((0, rf.case, f, "regress")),
                         Err(HarnessError(e)) => harness_errors.push(format!("{}: {e}", p.display())),
@@ -714,10 +786,7 @@ pub fn run_check(prop: &dyn Property, tier: Tier) -> i32 {
         let _ = write_replay(&rf0, "orig");
         // verify from the file in a fresh evaluation
         let reproduced = match load_replay(&path) {
-            Ok(r) => {
-                let mut st = Stats::default();
-                matches!(prop.check(&r.case, &mut st), Ok(Err(f)) if f.clause == *clause)
-            }
+            Ok(r) => matches!(evaluate(prop, &r.case), Ok(Err(f)) if f.clause == *clause),
             Err(_) => false,
         };
         if reproduced {
@@ -842,8 +911,7 @@ pub fn run_replay(prop: &dyn Property, path: &Path) -> i32 {
             return 2;
         }
     };
-    let mut st = Stats::default();
-    match prop.check(&rf.case, &mut st) {
+    match evaluate(prop, &rf.case) {
         Ok(Ok(())) => {
             println!("replay: property held");
             0
